@@ -932,12 +932,21 @@ func ListContainerSizes(epoch int) [][]byte {
 
 	it := storage.Find(ctx, key, storage.KeysOnly)
 
+	// The epoch is stored in its variable-length form, so the prefix of one
+	// epoch (1 = 0x01) also matches keys of other epochs (257 = 0x0101).
+	// The rest of the key has a fixed size, which tells them apart.
+	exactLen := len(key) + containerIDSize + estimatePostfixSize
+
 	uniq := map[string]struct{}{}
 
 	for iterator.Next(it) {
 		storageKey := iterator.Value(it).([]byte)
 
 		ln := len(storageKey)
+		if ln != exactLen {
+			continue
+		}
+
 		storageKey = storageKey[:ln-estimatePostfixSize]
 
 		uniq[string(storageKey)] = struct{}{}
